@@ -36,7 +36,7 @@ TReset == /\ Ev("reset")
           /\ out' = <<>> /\ validated' = {} /\ rcred' = None /\ lcred' = None
           /\ act' = [name |-> "init"] /\ now' = 0 /\ g' = [t \in Tids |-> GClosed]
 TSendReq == Ev("send_req") /\ SendRequest(R.tid, R.to, R.sealed, R.pay, R.now) /\ ReplyOk /\ ObsOk /\ now' = R.now /\ G
-TSendOther == Ev("send_other") /\ SendOther(R.cls, R.to, R.pay) /\ ReplyOk /\ ObsOk /\ UNCHANGED now /\ G
+TSendOther == Ev("send_other") /\ (IF R.cls = "data" THEN SendData(R.to, R.pay) ELSE SendOther(R.cls, R.to, R.pay)) /\ ReplyOk /\ ObsOk /\ UNCHANGED now /\ G
 TResp == Ev("recv_resp") /\ HandleResponse(R.tid, R.from, R.integ) /\ ReplyOk /\ ObsOk /\ UNCHANGED now /\ G
 TInc == Ev("recv_other") /\ HandleIncoming(R.cls, R.from) /\ ReplyOk /\ ObsOk /\ UNCHANGED now /\ G
 TPoll == /\ Ev("poll") /\ Poll(R.now) /\ ObsOk /\ now' = R.now /\ G
